@@ -30,8 +30,9 @@ impl NotificationHandler<DidOpenTextDocument> for DidOpenTextDocumentHandler {
 
 impl NotificationHandler<DidChangeTextDocument> for DidChangeTextDocumentHandler {
     fn handle(&self, ctx: &mut LspContext, params: DidChangeTextDocumentParams) -> MosResult<()> {
-        // (a change notification may come without any changes)
-        if let Some(text_changes) = params.content_changes.first() {
+        // (A change notification may come without any changes. When it comes with several, they are applied in order: each is
+        // the full text, so the last one is what the buffer holds.)
+        if let Some(text_changes) = params.content_changes.last() {
             register_document(ctx, &params.text_document.uri, &text_changes.text);
             publish_diagnostics(ctx)?;
         }
